@@ -1233,14 +1233,14 @@ func TestC07(t *testing.T) {
 	// (cost: every batch allocates and zeroes two 100000-slot lists = 9.6 MB, the
 	// bulk loader 960 MB; with 16 shards side by side these first-touch page
 	// faults dominate the run time, so the budgets are counted in compilations)
-	kit.SetRapid(kit.N(240, 6000))
+	kit.SetRapid(kit.N(240, 1500))
 	rapid.Check(t, kit.Prop("C07", func(t *rapid.T) {
 		run(t, c07GenWorldCase(t, kit.Pick(4, 5), 0, 20))
 	}))
 
 	phase("small-batch")
 	// (2) small files through the bulk loader (1.3 s each: few in quick)
-	kit.SetRapid(kit.N(16, 800))
+	kit.SetRapid(kit.N(16, 100))
 	rapid.Check(t, kit.Prop("C07", func(t *rapid.T) {
 		run(t, c07GenWorldCase(t, 1, 1, 25))
 	}))
@@ -1255,19 +1255,19 @@ func TestC07(t *testing.T) {
 			for len(c07DataLines([]byte(c.Text))) > 24 { // keep the 183-row pass cheap
 				c = c07GenWorldCase(t, 0, 0, 0)
 			}
-			c.Settings = c07AllSettings(kit.Thorough() && shard%4 == 1)
+			c.Settings = c07AllSettings(kit.Thorough() && shard%8 == 1)
 			kit.Class("full-settings-matrix")
 			run(t, c)
 		}))
 	}
 
 	phase("matrix")
-	// (4) bulk files: quick 2 per run in total (shards 0 and 1), thorough 4 per
-	// shard; thorough additionally one file per four shards that fills every
+	// (4) bulk files: quick 2 per run in total (shards 0 and 1), thorough 2 per
+	// shard; thorough additionally one file per eight shards that fills every
 	// bucket the loader can create (>= 30000 x NumCPU records)
 	nBulk := 0
 	if kit.Thorough() {
-		nBulk = 4
+		nBulk = 2
 	} else if shard < 2 {
 		nBulk = 1
 	}
@@ -1286,7 +1286,7 @@ func TestC07(t *testing.T) {
 			run(t, c)
 		}))
 	}
-	if kit.Thorough() && shard%4 == 3 {
+	if kit.Thorough() && shard%8 == 3 {
 		kit.SetRapid(1)
 		rapid.Check(t, kit.Prop("C07", func(t *rapid.T) {
 			c := c07GenBulk(t, true)
